@@ -19,6 +19,9 @@ RULE = ('real TransmissionModel (2-30 layers, 1-5 wavenumbers, thin/mid/thick ab
         'keyword; one case in five on a whole-number wavenumber grid held as an int64 / int32 array; every cloud case also with the '
         'deck attached by add_contribution() to the built, already run cloud-free model (deck evaluated last); every haze case '
         'also judged on the optical depth added along each ray (sigma x density x chord, altitude grid of a default-ray-tracer twin)'
+        '; models DECLARING SEVERAL hazes / clouds at once (grey + Lee, two grey / two Lee hazes with other windows, haze + haze + '
+        'cloud deck, either order, by add_contribution() or in one input file): every haze sigma vs its model value, the optical '
+        'depth added along each ray vs the SUM of the per-haze model values, a refused declared contribution is a violation'
         '. distinct non-trivial = distinct (kind, bound class, layers, method, route) where the contribution '
         'affects some but not all layers')
 ASSUMPTIONS = ['np.searchsorted(side="right") on a sorted array = number of elements <= v (Interp.searchRight)',
@@ -666,10 +669,173 @@ def eval_haze(ctx, spec):
     reuse_check(ctx, spec, m)
 
 
+# ----------------------------------------------------------------------------------------- several hazes / clouds at once
+# A forward model that DECLARES SEVERAL hazes / clouds (grey + Lee haze, two grey hazes with other windows, haze + haze +
+# cloud deck, in either order; built by add_contribution() or declared in an input file): every declared haze must add its
+# extinction in its own window.  The sigma of every attached haze is compared with the Lean model's value for that haze
+# (Haze.flatSigma / Haze.leeSigma) and the optical depth the hazes add to each ray with the SUM of the per-haze model values
+# (x density x chord).  A declared, distinct contribution object that add_contribution() refuses is the property failing
+# ("declared haze adds no extinction"), not a malformed input.
+MIXES = [('flat', 'lee'), ('lee', 'flat'), ('flat', 'flat'), ('lee', 'lee'), ('flat', 'lee', 'clouds'),
+         ('clouds', 'flat', 'flat'), ('lee', 'clouds', 'flat'), ('flat', 'lee', 'flat'), ('lee', 'lee', 'flat')]
+FILE_MIXES = [('flat', 'lee'), ('lee', 'flat'), ('flat', 'lee', 'clouds'), ('clouds', 'lee', 'flat')]
+CLASSNAME = {'clouds': 'SimpleCloudsContribution', 'flatmie': 'FlatMieContribution', 'leemie': 'LeeMieContribution'}
+
+
+def gen_multi(rng, k, parfile=False):
+    spec = base_spec(rng, k)
+    lev, P = levels_of(spec)
+    mix = (FILE_MIXES if parfile else MIXES)[k % len(FILE_MIXES if parfile else MIXES)]
+    hazes, classes = [], []
+    for t in mix:
+        if t == 'clouds':
+            hazes.append(dict(type='clouds', clouds_pressure=float(10 ** rng.uniform(math.log10(lev[-1]), math.log10(lev[0])))))
+            classes.append('inside')
+            continue
+        cls, bottom, top = bound_class(rng, lev, P, t)
+        classes.append(cls)
+        if t == 'flat':
+            hazes.append(dict(type='flatmie', flat_mix_ratio=float(10 ** rng.uniform(-32, -18)), flat_bottomP=bottom,
+                              flat_topP=top))
+        else:
+            hazes.append(dict(type='leemie', lee_mie_radius=float(10 ** rng.uniform(-2, 0.5)),
+                              lee_mie_q=float(rng.uniform(0.1, 60)), lee_mie_mix_ratio=float(10 ** rng.uniform(-20, -6)),
+                              lee_mie_bottomP=bottom, lee_mie_topP=top))
+    spec['kind'] = 'multi'
+    spec['mix'] = list(mix)
+    spec['classes'] = classes
+    spec['hazes'] = hazes
+    spec['extra'] = None
+    spec['extra_first'] = bool(rng.random() < 0.5)
+    if parfile:
+        spec['route'] = 'parfile'
+    return spec
+
+
+def flat_rounding_level(lev, bottom, top):
+    """the grey haze whose only overlap with the layers is at rounding level (see eval_haze): not modelled"""
+    llev = np.log10(lev)
+    lb = llev.max() if bottom < 0 else math.log10(bottom) if bottom > 0 else -np.inf
+    lt = llev.min() if top < 0 else math.log10(top) if top > 0 else -np.inf
+    lo, hi = min(lb, lt), max(lb, lt)
+    ov = np.maximum(np.minimum(hi, llev[:-1]) - np.maximum(lo, llev[1:]), 0.0)
+    width = llev[:-1] - llev[1:]
+    e12 = 1e-12 * (1 + abs(lo) + abs(hi))
+    ov_wide = np.maximum(np.minimum(hi + e12, llev[:-1]) - np.maximum(lo - e12, llev[1:]), 0.0)
+    return bool(ov.max() <= 1e-9 * width.max() and ov_wide.max() > 0)
+
+
+def eval_multi(ctx, spec):
+    hz = [dict(h) for h in spec['hazes']]
+    mixname = '+'.join(spec['mix'])
+    route = spec.get('route') or 'python'
+    declared = (hz + list(spec['others'])) if spec.get('extra_first') else (list(spec['others']) + hz)
+    objs = {}
+    if route == 'parfile':
+        try:
+            m = build_via_file(dict(spec, contributions=declared))
+        except Exception as e:
+            ctx.violation('declared-haze-adds-no-extinction:input-file:' + type(e).__name__,
+                          'an input file declaring several hazes / clouds (%s) is not turned into a model: %r'
+                          % (mixname, e), spec)
+            return
+        for i, h in enumerate(hz):
+            got = [c for c in m.contribution_list if type(c).__name__ == CLASSNAME[h['type']]]
+            if len(got) != 1:
+                ctx.violation('declared-haze-adds-no-extinction:input-file:' + h['type'],
+                              'a haze / cloud declared in the input file next to others is not in the model', spec,
+                              dict(contributions=[type(c).__name__ for c in m.contribution_list]))
+                return
+            objs[i] = got[0]
+    else:
+        try:
+            m = FM.build_model(dict(spec, contributions=[]), build=False)
+        except Exception as e:
+            ctx.violation('multi-raises:' + type(e).__name__, 'model raised %r' % (e,), spec)
+            return
+        for c in declared:
+            o = FM.make_contribution(c)
+            try:
+                m.add_contribution(o)
+            except Exception as e:
+                ctx.violation('declared-haze-adds-no-extinction:' + c['type'],
+                              'a distinct %s object declared next to %s is refused by add_contribution(): %r'
+                              % (type(o).__name__, [type(x).__name__ for x in m.contribution_list], e), spec,
+                              dict(refused=c, attached=[type(x).__name__ for x in m.contribution_list]))
+                return
+            for i, h in enumerate(hz):
+                if c is h:
+                    objs[i] = o
+    try:
+        if route != 'parfile':
+            m.build()
+        wn, depth, trans, p, contribs = T.observe(m)
+        m0, wn0, depth0, trans0, p_0, contribs0 = T.run_real(with_contribs(spec, None))
+    except Exception as e:
+        ctx.violation('multi-raises:' + type(e).__name__, 'model declaring several hazes / clouds (%s) raised %r'
+                      % (mixname, e), spec)
+        return
+    for i, h in enumerate(hz):
+        if not any(c is objs[i] for c in m.contribution_list):
+            ctx.violation('declared-haze-adds-no-extinction:' + h['type'], 'a declared haze / cloud is not in the built model',
+                          spec, dict(contributions=[type(c).__name__ for c in m.contribution_list]))
+            return
+    n, nwn = p['nlayers'], len(wn)
+    P, lev = p['P'], p['Plev']
+    total = np.zeros((n, nwn))
+    cloudy = np.zeros(n, bool)
+    rounding = False
+    active = 0
+    for i, h in enumerate(hz):
+        sm = dict(kind='multi', mix=spec['mix'], index=i, haze=h, nlayers=n, pmin=spec['pmin'], pmax=spec['pmax'], route=route)
+        if h['type'] == 'clouds':
+            cloudy |= P >= h['clouds_pressure']
+            continue
+        sig = np.array(objs[i].sigma_xsec, float)
+        if sig.shape != (n, nwn) or not np.all(np.isfinite(sig)) or np.any(sig < 0):
+            ctx.violation('multi-sigma-invalid:' + h['type'], 'sigma_xsec of a haze declared next to others has a wrong shape, '
+                          'is negative or not finite', spec, dict(index=i, shape=sig.shape))
+            return
+        if h['type'] == 'flatmie':
+            bottom, top, mix = h['flat_bottomP'], h['flat_topP'], h['flat_mix_ratio']
+            d = ctx.model().call('c19.flat', C.L(lev), C.F(bottom), C.F(top), C.F(mix))
+            ms = np.array(d.list())
+            if flat_rounding_level(lev, bottom, top):
+                ctx.bucket('multi:flat:only-overlap-is-at-rounding-level')
+                rounding = True
+                continue
+            ctx.check_close('FlatMie sigma_xsec vs Haze.flatSigma (model declaring several hazes / clouds)',
+                            sig.ravel(), np.repeat(ms, nwn), sm, rel=1e-9, abs_=1e-12 * abs(mix))
+            msig = np.repeat(ms[:, None], nwn, axis=1)
+        else:
+            d = ctx.model().call('c19.lee', C.L(P), C.F(h['lee_mie_bottomP']), C.F(h['lee_mie_topP']), C.F(np.pi),
+                                 C.F(h['lee_mie_radius']), C.F(h['lee_mie_q']), C.F(h['lee_mie_mix_ratio']), C.L(wn))
+            msig = np.array(d.list(lambda: d.list())).reshape(n, nwn)
+            ctx.check_close('LeeMie sigma_xsec vs Haze.leeSigma (model declaring several hazes / clouds)',
+                            sig.ravel(), msig.ravel(), sm, rel=1e-9, abs_=1e-300)
+        total = total + msig
+        part = np.any(msig > 0, axis=1)
+        active += int(part.any() and not part.all())
+    if np.any(trans[cloudy] != 0.0):
+        ctx.violation('cloud-not-opaque:multi', 'a cloud deck declared next to hazes: a layer at or below the cloud top is not '
+                      'opaque', spec, dict(P=P, trans=trans[cloudy][:3]))
+    if rounding:
+        ctx.bucket('multi:ray-extinction-not-judged:rounding-level-window')
+    else:
+        # the optical depth all declared hazes add to each ray vs the SUM of the per-haze model values
+        ray_extinction(ctx, spec, 'multi', total, trans, trans0, p)
+    ctx.case(key=('multi', mixname, n, bool(spec['new_path_method']), route) if active >= 2 else None,
+             sample=dict(kind='multi', mix=spec['mix'], classes=spec['classes'], nlayers=n, route=route, sigma_sum=total[:4, 0]),
+             bucket='multi:' + ('' if route == 'python' else 'input-file:') + mixname)
+    ctx.bucket('multi:hazes-acting-on-some-layers:%d' % active)
+
+
 # ----------------------------------------------------------------------------------------- driver
 def eval_case(ctx, spec):
     if spec['kind'] == 'cloud':
         eval_cloud(ctx, spec)
+    elif spec['kind'] == 'multi':
+        eval_multi(ctx, spec)
     else:
         eval_haze(ctx, spec)
 
@@ -715,6 +881,11 @@ def run(ctx):
         else:
             spec = gen_haze(ctx.rng, k // 3, 'flat' if which == 1 else 'lee')
         eval_case(ctx, to_parfile(ctx.rng, spec))
+    # forward models declaring several hazes / clouds at once (add_contribution() route, then the input-file route)
+    for k in range(ctx.n(54, 1800)):
+        eval_case(ctx, gen_multi(ctx.rng, k))
+    for k in range(ctx.n(16, 400)):
+        eval_case(ctx, gen_multi(ctx.rng, k, parfile=True))
     malformed(ctx)
     FM.reset_caches()
 
